@@ -257,6 +257,8 @@ func makeField(v reflect.Value, params fieldParameters) (encoder, error) {
 					if params.tagNumber == nil {
 						return makeField(val.Field(present), tempParams)
 					}
+					// a tagged CHOICE is always explicitly tagged: the wrapper built here is the explicit tag
+					params.explicitTag = false
 					tag.constructed = true
 					var err error
 					berType.value, err = makeField(val.Field(present), tempParams)
